@@ -2346,12 +2346,15 @@ pub enum UnpackError {
     Misuse,
 }
 
-// a zero-length integer encodes 0 (`Buf::get_int(0)` overflows its sign-extension shift)
+// a zero-length integer encodes 0 (`Buf::get_int(0)` overflows its sign-extension shift).
+// `num_bytes_needed_*` sizes the unsigned magnitude (negative values always take 8 bytes), so
+// shorter widths must be zero-extended: sign-extending turns 200 into -56 and a text length
+// of 128 into a negative one
 fn get_packed_int(buf: &mut &[u8], intlen: usize) -> i64 {
-    if intlen == 0 {
-        0
-    } else {
-        buf.get_int(intlen)
+    match intlen {
+        0 => 0,
+        8 => buf.get_i64(),
+        n => buf.get_uint(n) as i64,
     }
 }
 
